@@ -1,19 +1,22 @@
 ------------------------- MODULE TraceDesktopSanitize -------------------------
-(* C27 T->I table: evaluate the reference sanitizer and the four clauses of the statement on the cases chosen
-   by the check (IOEnv.VERIF_TRACE, NDJSON: {"lines": [class...], "inst": bool, "fname": "app|other|space"}),
-   write one result per case to IOEnv.VERIF_OUT, and the class attribute table to IOEnv.VERIF_ATTR.
-   The Go driver runs the real wrappers.EnsureSnapDesktopFiles on concrete spellings of the same cases; the
-   python side compares line by line. *)
+(* C27 T->I table: evaluate the reference Install (sanitizer output per shipped file) and the four clauses of the
+   statement on the install calls chosen by the check (IOEnv.VERIF_TRACE, NDJSON, one row per CALL of
+   EnsureSnapDesktopFiles: {"files": [{"fname": "app|other|space", "inst": bool, "lines": [class...]}, ...]}),
+   write one result per call (a sequence: one [out, clauses] per shipped file) to IOEnv.VERIF_OUT, and the class
+   attribute table to IOEnv.VERIF_ATTR.
+   The Go driver ships concrete spellings of the same files in one snap (or two) and makes ONE real call of
+   wrappers.EnsureSnapDesktopFiles; the python side compares every installed file line by line. *)
 EXTENDS DesktopSanitize, IOUtils, Json
 
 Cases == ndJsonDeserialize(IOEnv.VERIF_TRACE)
 
-Result(c) == [out     |-> Sanitize(c.lines, c.inst, c.fname),
-              clauses |-> Clauses(c.lines, c.inst, c.fname)]
+Result(c) == LET ins  == Install(c.files)
+                 cls  == InstalledClauses(c.files)
+             IN [i \in 1..Len(c.files) |-> [out |-> ins[i], clauses |-> cls[i]]]
 
-ASSUME \A i \in 1..Len(Cases) :
-          /\ \A j \in 1..Len(Cases[i].lines) : Cases[i].lines[j] \in Classes
-          /\ Cases[i].fname \in Fnames
+ASSUME \A i \in 1..Len(Cases) : \A k \in 1..Len(Cases[i].files) :
+          /\ \A j \in 1..Len(Cases[i].files[k].lines) : Cases[i].files[k].lines[j] \in Classes
+          /\ Cases[i].files[k].fname \in Fnames
 ASSUME JsonSerialize(IOEnv.VERIF_OUT, [i \in 1..Len(Cases) |-> Result(Cases[i])])
 ASSUME JsonSerialize(IOEnv.VERIF_ATTR, [c \in Classes |-> Attr[c]])
 
